@@ -46,6 +46,7 @@ type pshape struct {
 	limit     int // -1 = none
 	prop      string
 	na        int // number of anchors to draw from (0 = the two base anchors)
+	orderText string // the ORDER BY clause as written, when it is not the plain rendering of order (repeated keys)
 }
 
 func (sh pshape) text() string {
@@ -82,7 +83,13 @@ func (sh pshape) text() string {
 		}
 		q += "?" + g
 	}
+	if sh.orderText != "" {
+		q += " " + sh.orderText
+	}
 	for i, o := range sh.order {
+		if sh.orderText != "" {
+			break
+		}
 		if i == 0 {
 			q += " order by "
 		} else {
@@ -281,6 +288,9 @@ var pipeShapes = []pshape{
 	23: {cs: []xclause{clSAO, clOAZ}, okinds: []int{0}, sel: []proj{pS, {binding: "z", op: "count", alias: "n"}, {binding: "o", op: "count", distinct: true, alias: "m"}}, groupBy: []string{"s"}, limit: -1, prop: "C11"},
 	24: {cs: []xclause{xq(qclause{s: bS, p: bP, o: bO})}, okinds: []int{0}, sel: []proj{pS, {binding: "p"}, {binding: "o", op: "count", alias: "n"}}, groupBy: []string{"s", "p"}, limit: -1, prop: "C11"},
 	30: {cs: []xclause{clSAOT}, okinds: []int{0}, temporal: true, na: 3, sel: []proj{{binding: "t"}, {binding: "s", op: "count", alias: "n"}}, groupBy: []string{"t"}, limit: -1, prop: "C11x"},
+	// ---- C14: a repeated ORDER BY key does not change the order the keys are applied in
+	31: {cs: []xclause{clSAO}, okinds: []int{0}, sel: []proj{pS, pO}, order: []ordKey{{"s", false}, {"o", false}}, orderText: "order by ?s asc, ?o asc, ?s asc", limit: -1, prop: "C14"},
+	32: {cs: []xclause{clSAO}, okinds: []int{0}, sel: []proj{pS, pO}, order: []ordKey{{"o", true}, {"s", false}}, orderText: "order by ?o desc, ?s asc, ?o desc", limit: -1, prop: "C14"},
 	// ---- C12 again: ORDER BY survives HAVING (the planner sorts first, then filters, then limits); needs three rows
 	25: {cs: []xclause{clSAO}, okinds: []int{0}, sel: []proj{pS, pO}, order: []ordKey{{"s", false}}, having: "not ?o = /u<b>", havingRef: func(r rrow) bool { return r["o"].b != 'b' }, limit: -1, prop: "C12x"},
 	26: {cs: []xclause{clSAO}, okinds: []int{2}, sel: []proj{pS, pO}, order: []ordKey{{"o", true}, {"s", false}}, having: "not ?s = /u<a>", havingRef: func(r rrow) bool { return r["s"].b != 'a' }, limit: 1, prop: "C12x"},
@@ -290,7 +300,7 @@ var pipeShapes = []pshape{
 
 // HarnessPipeline: PROP selects the property whose shapes are run (11, 12, 13).
 func HarnessPipeline() {
-	want := map[int]string{11: "C11", 12: "C12", 13: "C13", 120: "C12x", 110: "C11x"}[verif.Param("PROP", 12)]
+	want := map[int]string{11: "C11", 12: "C12", 13: "C13", 120: "C12x", 110: "C11x", 14: "C14"}[verif.Param("PROP", 12)]
 	var idx []int
 	for i, sh := range pipeShapes {
 		if sh.prop == want {
